@@ -424,8 +424,72 @@ impl<K: Ord + Clone, V: Val<A> + CvRDT, A: Ord + Hash + Clone> CvRDT for Map<K, 
     open spec fn cv_pre(&self, other: &Self) -> bool { clone_ok::<A>() }
     open spec fn cv_post(old_: &Self, other: &Self, new_: &Self) -> bool { merge_post_map(*old_, *other, *new_) }
 
-    #[verifier::external_body]
-    fn validate_merge(&self, other: &Self) -> Result<(), Self::Validation> { unimplemented!() }
+//@extract fn src/map.rs "CvRDT for Map" validate_merge
+    fn validate_merge(&self, other: &Self) -> /*@ (r: @*/ Result<(), Self::Validation> /*@ ) @*/
+    //@ ensures
+    //@     // C17: a dot that is a current witness of one key here and of a different key there is always flagged
+    //@     // (an error of a nested value under a shared key may be reported first), and DoubleSpentDot is raised for nothing else
+    //@     crate::orswot::eq_ok::<K>() ==> (kdouble_spent(*self, *other) ==> r is Err),
+    //@     crate::orswot::eq_ok::<K>() ==> ((r matches Err(CvRDTValidation::DoubleSpentDot { .. })) ==> kdouble_spent(*self, *other)),
+    {
+        //@ proof { self.lemma_wf(); other.lemma_wf(); }
+        //@ let sit = self.entries.iter();
+        //@ let ghost ss = sit.remaining();
+        for (key, entry) in /*@ it1: sit @*/ /*@<*/ self.entries.iter() /*@>*/
+        //@ invariant
+        //@     mbase_ok::<K, V, A>(), cval_ok::<V, A>(), self.wf(), other.wf(), it1.seq() == ss,
+        //@     forall|i: int| 0 <= i < ss.len() ==> self.entries@.contains_key(*(#[trigger] ss[i]).0) && self.entries@[*ss[i].0] == *ss[i].1,
+        //@     forall|k: K| self.entries@.contains_key(k) ==> ss.contains((&k, &self.entries@[k])),
+        //@     crate::orswot::eq_ok::<K>() ==> forall|i: int, k2: K, a: A| 0 <= i < it1.index@ ==> !#[trigger] kconflict(*self, *other, *ss[i].0, k2, a),
+        {
+            //@ proof { assert(*key == *ss[it1.index@].0 && *entry == *ss[it1.index@].1); assert(self.entries@.contains_key(*key)); assert(self.wf()); assert(nz(self.entries@[*key].clock@)); assert(self.entries@[*key].val.cm_inv()); }
+            //@ let oit = other.entries.iter();
+            //@ let ghost os = oit.remaining();
+            for (other_key, other_entry) in /*@ it2: oit @*/ /*@<*/ other.entries.iter() /*@>*/
+            //@ invariant
+            //@     mbase_ok::<K, V, A>(), cval_ok::<V, A>(), self.wf(), other.wf(), it2.seq() == os, nz(entry.clock@), entry.val.cm_inv(),
+            //@     self.entries@.contains_key(*key), self.entries@[*key] == *entry,
+            //@     forall|i: int| 0 <= i < os.len() ==> other.entries@.contains_key(*(#[trigger] os[i]).0) && other.entries@[*os[i].0] == *os[i].1,
+            //@     forall|k: K| other.entries@.contains_key(k) ==> os.contains((&k, &other.entries@[k])),
+            //@     crate::orswot::eq_ok::<K>() ==> forall|l: int, a: A| 0 <= l < it2.index@ ==> !#[trigger] kconflict(*self, *other, *key, *os[l].0, a),
+            {
+                //@ proof { assert(*other_key == *os[it2.index@].0 && *other_entry == *os[it2.index@].1); assert(other.entries@.contains_key(*other_key)); assert(other.wf()); assert(nz(other.entries@[*other_key].clock@)); assert(other.entries@[*other_key].val.cm_inv()); }
+                for Dot { actor, counter } in /*@ it3: @*/ entry.clock.iter()
+                //@ invariant
+                //@     it3.iter.obeys_prophetic_iter_laws(), it3.iter.decrease() is Some,
+                //@     mbase_ok::<K, V, A>(), nz(entry.clock@),
+                //@     self.entries@.contains_key(*key), self.entries@[*key] == *entry,
+                //@     other.entries@.contains_key(*other_key), other.entries@[*other_key] == *other_entry,
+                //@     dots_of(it3.seq(), entry.clock@, it3.snapshot@.will_return_none()),
+                //@     crate::orswot::eq_ok::<K>() ==> forall|e: int| 0 <= e < it3.index@ ==> !(*other_key != *key && cnt(other_entry.clock@, *(#[trigger] it3.seq()[e]).actor) == it3.seq()[e].counter),
+                {
+                    //@ proof { if crate::orswot::eq_ok::<K>() { crate::orswot::lemma_eq_ok::<K>(*other_key, *key); } }
+                    if other_key != key && other_entry.clock.get(actor) == counter {
+                        //@ proof { if crate::orswot::eq_ok::<K>() { assert(entry.clock@.contains_key(*actor) && entry.clock@[*actor] == counter && counter > 0); assert(kconflict(*self, *other, *key, *other_key, *actor)); } }
+                        return Err(CvRDTValidation::DoubleSpentDot {
+                            dot: Dot::new(actor.clone(), counter),
+                            our_key: key.clone(),
+                            their_key: other_key.clone(),
+                        });
+                    }
+                }
+                //@ proof { if crate::orswot::eq_ok::<K>() { assert forall|a: A| !#[trigger] kconflict(*self, *other, *key, *other_key, a) by { if kconflict(*self, *other, *key, *other_key, a) { assert(entry.clock@.contains_key(a)); } } } }
+
+                if key == other_key && entry.clock.concurrent(&other_entry.clock) {
+                    //@ proof { assert(entry.val.cv_inv() && other_entry.val.cv_inv()); }
+                    entry
+                        .val
+                        .validate_merge(&other_entry.val)
+                        .map_err( /*@ |e: <V as CvRDT>::Validation| -> (o: CvRDTValidation<K, V, A>) ensures o == CvRDTValidation::<K, V, A>::Value(e) { @*/ CvRDTValidation::Value /*@ (e) } @*/ )?;
+                }
+            }
+            //@ proof { if crate::orswot::eq_ok::<K>() { assert forall|k2: K, a: A| !#[trigger] kconflict(*self, *other, *key, k2, a) by { if kconflict(*self, *other, *key, k2, a) { let p = (&k2, &other.entries@[k2]); assert(os.contains(p)); let l = choose|l: int| 0 <= l < os.len() && os[l] == p; assert(!kconflict(*self, *other, *key, *os[l].0, a)); } } } }
+        }
+        //@ proof { if crate::orswot::eq_ok::<K>() { assert(!kdouble_spent(*self, *other)) by { if kdouble_spent(*self, *other) { let (k, k2, a) = choose|k: K, k2: K, a: A| #[trigger] kconflict(*self, *other, k, k2, a); let p = (&k, &self.entries@[k]); assert(ss.contains(p)); let i = choose|i: int| 0 <= i < ss.len() && ss[i] == p; assert(!kconflict(*self, *other, *ss[i].0, k2, a)); } } } }
+
+        Ok(())
+    }
+//@end
 
 //@extract fn src/map.rs "CvRDT for Map" merge
     fn merge(&mut self, other: Self)
@@ -685,6 +749,50 @@ impl<K: Ord, V: Val<A>, A: Ord + Hash + Clone> Map<K, V, A> {
             rm_clock: self.clock.clone(),
             val: (),
         }
+    }
+//@end
+
+    // OUT OF REACH (assumed, bounded stand-in `map_iters`): keys / values / iter return opaque Map adapters
+    // over `entries` (see VClock::iter).  Per-item contract: add context = map clock, remove context = entry clock.
+    #[verifier::external_body]
+//@extract fn src/map.rs "Map" keys
+    pub fn keys(&self) -> /*@ (r: @*/ impl Iterator<Item = ReadCtx<&K, A>> /*@ ) @*/
+    //@ ensures r.obeys_prophetic_iter_laws(), r.decrease() is Some,
+    //@     forall|i: int| 0 <= i < r.remaining().len() ==> { let x = #[trigger] r.remaining()[i]; self.has(*x.val) && x.add_clock@ == self.cl() && x.rm_clock@ == self.ec(*x.val) },
+    {
+        self.entries.iter().map(move |(k, v)| ReadCtx {
+            add_clock: self.clock.clone(),
+            rm_clock: v.clock.clone(),
+            val: k,
+        })
+    }
+//@end
+
+    #[verifier::external_body]
+//@extract fn src/map.rs "Map" values
+    pub fn values(&self) -> /*@ (r: @*/ impl Iterator<Item = ReadCtx<&V, A>> /*@ ) @*/
+    //@ ensures r.obeys_prophetic_iter_laws(), r.decrease() is Some,
+    //@     forall|i: int| 0 <= i < r.remaining().len() ==> { let x = #[trigger] r.remaining()[i]; x.add_clock@ == self.cl() && exists|k: K| self.has(k) && #[trigger] self.val(k) == *x.val && x.rm_clock@ == self.ec(k) },
+    {
+        self.entries.values().map(move |v| ReadCtx {
+            add_clock: self.clock.clone(),
+            rm_clock: v.clock.clone(),
+            val: &v.val,
+        })
+    }
+//@end
+
+    #[verifier::external_body]
+//@extract fn src/map.rs "Map" iter
+    pub fn iter(&self) -> /*@ (r: @*/ impl Iterator<Item = ReadCtx<(&K, &V), A>> /*@ ) @*/
+    //@ ensures r.obeys_prophetic_iter_laws(), r.decrease() is Some,
+    //@     forall|i: int| 0 <= i < r.remaining().len() ==> { let x = #[trigger] r.remaining()[i]; self.has(*x.val.0) && *x.val.1 == self.val(*x.val.0) && x.add_clock@ == self.cl() && x.rm_clock@ == self.ec(*x.val.0) },
+    {
+        self.entries.iter().map(move |(k, v)| ReadCtx {
+            add_clock: self.clock.clone(),
+            rm_clock: v.clock.clone(),
+            val: (k, &v.val),
+        })
     }
 //@end
 
